@@ -227,6 +227,9 @@ pub struct RunResult {
     /// Available for the driver entries when the build succeeded.
     pub resolved: Option<ResolvedSemanticState>,
     pub peak_alloc: usize,
+    /// Paths of the run's scratch tree *outside* the output directory (the input tree, siblings
+    /// of the output directory) that appeared, disappeared or changed during the build.
+    pub elsewhere: Vec<String>,
 }
 
 impl RunResult {
@@ -357,6 +360,18 @@ pub fn snapshot(dir: &Path) -> BTreeMap<String, Snap> {
     out
 }
 
+/// Snapshot of `dir` without the subtree `excluded` (paths relative to `dir`).
+pub fn snapshot_excluding(dir: &Path, excluded: &Path) -> BTreeMap<String, Snap> {
+    let ex = excluded
+        .strip_prefix(dir)
+        .map(|p| p.to_string_lossy().into_owned())
+        .unwrap_or_default();
+    snapshot(dir)
+        .into_iter()
+        .filter(|(k, _)| !(k == &ex || k.starts_with(&format!("{ex}/"))))
+        .collect()
+}
+
 // ---------------------------------------------------------------------------------------------
 // Execution
 
@@ -485,6 +500,7 @@ pub fn run_build_with(
             materialise(&out_path, &world.pre_out);
         }
         let before = snapshot(&out_path);
+        let elsewhere_before = snapshot_excluding(&dir, &out_path);
 
         let (scheduler, trace) = SimScheduler::new(spec.sched.clone());
         if scheduled {
@@ -524,6 +540,19 @@ pub fn run_build_with(
             }
         };
         let after = snapshot(&out_path);
+        let elsewhere_after = snapshot_excluding(&dir, &out_path);
+        let mut elsewhere: Vec<String> = elsewhere_before
+            .iter()
+            .filter(|(k, v)| elsewhere_after.get(*k) != Some(v))
+            .map(|(k, _)| k.clone())
+            .chain(
+                elsewhere_after
+                    .keys()
+                    .filter(|k| !elsewhere_before.contains_key(*k))
+                    .cloned(),
+            )
+            .collect();
+        elsewhere.sort();
         let trace = trace.borrow().clone();
         let _ = std::fs::remove_dir_all(&dir);
         results.push(RunResult {
@@ -533,6 +562,7 @@ pub fn run_build_with(
             trace,
             resolved,
             peak_alloc,
+            elsewhere,
         });
     }
     results
